@@ -229,7 +229,7 @@ def r4_nothing_freed(ctx, P):
     for rx in SCOPE_EXIT_ROOTS:
         roots += [i["id"] for i in P.find_re(rx) if i["id"] in P.raw_bodies]
     ctx.floor(R, "scope-exit operations (roots)", len(roots), 12)
-    parents = P.reach_fns(roots)
+    parents = P.reach_fns(roots, opaque_traits=("alloc::Allocator",))
     hits = [st for st in parents if st[0] in chunk_deallocs]
     for st in hits:
         chain = " -> ".join(p for p, _ in P.path_to(parents, st))
